@@ -44,6 +44,7 @@ func (s *simpleCache) ShallowClone() ResolutionCache {
 
 // Get retrieves a cached URI
 func (s *simpleCache) Get(uri string) (interface{}, bool) {
+	verifYield("cache.get")
 	s.lock.RLock()
 	v, ok := s.store[uri]
 
@@ -53,6 +54,7 @@ func (s *simpleCache) Get(uri string) (interface{}, bool) {
 
 // Set caches a URI
 func (s *simpleCache) Set(uri string, data interface{}) {
+	verifYield("cache.set")
 	s.lock.Lock()
 	s.store[uri] = data
 	s.lock.Unlock()
@@ -88,6 +90,7 @@ func defaultResolutionCache() *simpleCache {
 
 func cacheOrDefault(cache ResolutionCache) ResolutionCache {
 	onceCache.Do(initResolutionCache)
+	verifYield("cache.default")
 
 	if cache != nil {
 		return cache
